@@ -7,9 +7,9 @@ from .c19 import first_diff
 
 class C20(Prop):
   id = "C20"
-  quick_examples = 500
+  quick_examples = 1500
   thorough_examples = 6000
-  rule = ("Hypothesis-generated histories on a decorated chart hosted on an instrumented "
+  rule = ("Hypothesis-generated histories on a decorated chart (a quarter of them with their states written as methods of the chart's own class, so that every mention of a state is a new bound method) hosted on an instrumented "
           "HsmWithQueues (handlers post/defer/recall/scribble; operations post, defer, recall, "
           "next_rtc, complete_circuit; one history in eight has 255-350 queued events so that more "
           "than 500 transitions can occur); one case in four hosts the chart on a started ActiveObject under the "
